@@ -337,6 +337,17 @@ func c19(r *Run) {
 			okk := hasMatch(cs, "0 != p0.config.AcceptedBlockWindow") && hasMatch(cs, e+" != 0") && hasMatch(cs, e+" < "+h)
 			r.check(okk, "C19.R3", "UpdateLastAccepted:prune-guards", r.at(w, dels[0].Ins), "", "pruning is not skipped exactly when window == 0, target == 0 or target >= height: {"+strings.Join(cs, " ; ")+"}")
 		}
+		// R5: the retention bound. Pruning exactly one height per accept keeps the index bounded only while heights are
+		// consecutive; a bound that survives gaps and historical saves needs a ranged prune (every height <= target)
+		r.rule("C19.R5", "K16", "the prune of UpdateLastAccepted covers every stored height at or below the target, not one height", 1)
+		ranged := false
+		for _, d := range dels {
+			if h, _ := innermostLoop(d.Ins.Block()); h != nil {
+				ranged = true
+			}
+		}
+		r.check(ranged, "C19.R5", "UpdateLastAccepted:prunes-every-height-below-the-window", w.rel(ul.Pos()), "",
+			"UpdateLastAccepted prunes only the single height (accepted height - window): blocks stored below it (older blocks before a state-sync gap, historical saves) stay until the next restart, so more than window+1 non-genesis blocks are retained")
 	}
 	wbf := r.fn(w, "C19.R2", CI+"writeBlock")
 	if wbf != nil {
@@ -635,6 +646,25 @@ func c20(r *Run) {
 		} else {
 			r.missing("C20.R5", "processAccept:last-processed-after-accept", "accept / setLastProcessed not found")
 		}
+		// the accepted parent handed to the chain is the last processed block (blocks are processed in acceptance order);
+		// a lookup by ID goes through the bounded accepted-block cache, which consensus has already moved on, and falls back
+		// to an index entry without accepted state
+		if len(ac) == 1 {
+			pa2 := term(ac[0].Common().Args[2])
+			okP := pa2 == "p0.vm.lastProcessedBlock.Accepted" && hasMatch(condStrings(ctrlConds(ac[0].Block())), "(*snow.StatefulBlock).ID(p0.vm.lastProcessedBlock) == (*snow.StatefulBlock).Parent(p0)") &&
+				hasMatch(condStrings(ctrlConds(ac[0].Block())), "p0.vm.lastProcessedBlock.accepted")
+			r.check(okP, "C20.R5", "processAccept:parent=last-processed-accepted-block", r.at(w, ac[0]), "", "the accepted parent passed to the chain is "+pa2+", not the (checked) last processed block: with an accepted-block cache smaller than the accepter's backlog the chain receives a parent without accepted state")
+		}
+	}
+	// building needs a verified parent output
+	if bbf := r.fn(w, "C20.R3", nmSVM+"buildBlock"); bbf != nil {
+		es := findEffects(bbf, "call (snow.Chain).BuildBlock(p0.chain, *")
+		okB := len(es) == 1
+		if okB {
+			cs := es[0].Conds()
+			okB = hasStr(cs, "p0.ready") && hasMatch(cs, "(*snow.VM).GetBlock(p0, *, p0.preferredBlkID)#0.verified")
+		}
+		r.check(okB, "C20.R3", "buildBlock:only-on-verified-preference", w.rel(bbf.Pos()), "", "the chain is asked to build on a preferred block that may be unverified (no output): nil-pointer dereference in the builder")
 	}
 
 	// R6
